@@ -423,11 +423,20 @@ def do_xwaves(rec, rng, ws, xr, d, kind):
     key = "xwaves|nt=%d" % len(t["time"])
     out = reader(rec, "xwaves", key, lambda: ws.read_xwaves(paths[0]))
     backend_same(rec, rng, xr, "xwaves", paths[0], out)
+    if out is not None:
+        g_ = t64(out["time"].values, "s")
+        if g_.shape == np.shape(t["time"]) and np.array_equal(g_, t64(t["time"], "s")) and not np.array_equal(g_, np.sort(g_)):
+            # defect 38 (fixed in repo 149d435): records returned in file order
+            rec.bad("xwaves", key, {"times_read": g_.astype(str)}, "xwaves-records-not-sorted-by-time")
+            return
     if out is None or not times_ok(rec, "xwaves", key, out, t["time"]):
         return
     fo, do_ = np.asarray(out["freq"].values, dtype="float64"), np.asarray(out["dir"].values, dtype="float64")
     if not np.allclose(fo, t["freq"], rtol=1e-15) or not np.allclose(do_, t["dir"]):
         rec.bad("xwaves", key, {"freq_read": fo}, "coordinates-differ:xwaves")
         return
-    ok, worst = close(out["efth"].transpose("time", "freq", "dir").values, t["E"], 1e-12)
+    o = order_of(t["time"])
+    if not np.array_equal(o, np.arange(len(o))):
+        rec.note("xwaves_records_not_chronological_in_file")
+    ok, worst = close(out["efth"].transpose("time", "freq", "dir").values, t["E"][o], 1e-12)
     (rec.ok("xwaves", key) if ok else rec.bad("xwaves", key, {"worst_over_tol": worst}, "densities-differ:xwaves"))
